@@ -94,8 +94,13 @@ def analyse_mode(ctx, repo, noncorr: bool):
     org = res.origin
     if org.op != "spdot":
         r = contains_top(org)
-        (ctx.inconclusive if r else ctx.violate)("KERNEL", f"{tag}.norm.form", "result must be diag(1/rowsum).dot(C)", where,
-                                                 construct=vstr(org)[:200], witness=r or f"top-level operation is {org.op}")
+        # the raw count matrix returned without any normalisation is a definite deviation; other assemblies are not judged
+        if not r and org.op in ("tocsr", "tocoo", "tocsc", "dok"):
+            ctx.violate("KERNEL", f"{tag}.norm.form", "the count matrix is returned without row normalisation", where,
+                        construct=vstr(org)[:200], witness=f"top-level operation is {org.op}")
+        else:
+            ctx.inconclusive("KERNEL", f"{tag}.norm.form", "result is not of the form diag(1/rowsum).dot(C)", where,
+                             construct=vstr(org)[:200], witness=r or f"top-level operation is {org.op}")
         return
     A, B = org.args
 
